@@ -156,8 +156,11 @@ def _changed(before, after):
     return out
 
 
-def explore(ctx: Ctx, history, max_runs=200, then_call=None):
-    """then_call: after the history (all successful), the last explored operation is evaluator(**then_call)."""
+def explore(ctx: Ctx, history, max_runs=200, then_call=None, settle=False):
+    """then_call: after the history (all successful), the last explored operation is evaluator(**then_call).
+    settle: when the history ends normally, one call evaluator() is interpreted with no failure explored; rec["served"] is the
+    compiled function that call invoked (or ("raise", name)), rec["settled"] the attributes afterwards and rec["settle_log"] what
+    the call did.  This is what an observer of the evaluator sees, whether the text is loaded by recompile or by the first call."""
     m = ctx.mod(EV)
     c = m.classes().get("ExperimentEvaluator")
     if c is None:
@@ -170,16 +173,23 @@ def explore(ctx: Ctx, history, max_runs=200, then_call=None):
         w = _World(ctx, it, sig)
         cls = it.class_val(m, c)
         selfo = A.Obj(cls, {})
-        rec = {"world": w, "self": selfo, "it": it}
+        others = {}                  # further evaluators of the same class: history items (k, text) with k >= 1
+        rec = {"world": w, "self": selfo, "it": it, "others": others}
         try:
             for i, text in enumerate(history):
                 last = i == len(history) - 1 and then_call is None
-                w.active = last
+                w.active = last and not isinstance(text, tuple)
                 if last:
                     rec["before"] = _snap(selfo.attrs)
                     it.trace.clear()
                     w.log.clear()
-                f = it.class_attr(cls, "__init__" if i == 0 else "recompile", selfo, "")
+                if isinstance(text, tuple):
+                    k, text = text
+                    fresh_ = k not in others
+                    obj = others.setdefault(k, A.Obj(cls, {}))
+                    f = it.class_attr(cls, "__init__" if fresh_ else "recompile", obj, "")
+                else:
+                    f = it.class_attr(cls, "__init__" if i == 0 else "recompile", selfo, "")
                 it.call(f, [text], {})
             if then_call is not None:
                 w.active = True
@@ -189,6 +199,30 @@ def explore(ctx: Ctx, history, max_runs=200, then_call=None):
                 f = it.class_attr(cls, "__call__", selfo, "")
                 rec["value"] = it.call(f, [], dict(then_call))
             rec["kind"] = "return"
+            if settle:
+                rec["after"] = _snap(selfo.attrs)
+                rec["assume_op"] = list(it.assumptions)
+                rec["trace"] = list(it.trace)
+                rec["log"] = list(w.log)
+                w.active = False
+                w.log.clear()
+                it.trace = []
+                try:
+                    f = it.class_attr(cls, "__call__", selfo, "")
+                    it.call(f, [], {})
+                    calls = [e for e in w.log if e[0] == "call"]
+                    rec["served"] = calls[-1][1] if calls else None
+                    rec["served_calls"] = len(calls)
+                except A.RaiseSig as e:
+                    rec["served"] = ("raise", e.exc_name)
+                rec["settled"] = _snap(selfo.attrs)
+                rec["settle_log"] = list(w.log)
+                rec["settle_trace"] = list(it.trace)
+                rec["assume"] = list(it.assumptions)
+                outs.append(rec)
+                if len(outs) + len(pending) > max_runs:
+                    raise Undecided("too many undetermined decisions in recompile")
+                continue
         except A.NeedChoice:
             pending.append(ch + (True,))
             pending.append(ch + (False,))
@@ -292,12 +326,12 @@ def lifecycle(ctx: Ctx):
     if cached is not None:
         return cached
     res = {"undecided": None, "findings": {k: [] for k in ("atomic", "none", "switched", "layout", "fed", "unwrapped", "recorded", "exact", "ordered",
-                                                           "unparsed")},
+                                                           "unparsed", "isolated")},
            "facts": {}}
     T0, T1 = A.Sym("str", "TEXT0"), A.Sym("str", "TEXT1")
     try:
         construct = explore(ctx, [T0])
-        runs = explore(ctx, [T0, T1])
+        runs = explore(ctx, [T0, T1], settle=True)
         again = explore(ctx, [T0, T1, T1])
         first = explore(ctx, [T0, T0])
     except Undecided as e:
@@ -348,6 +382,14 @@ def lifecycle(ctx: Ctx):
             for o in _reach(v):
                 if o.tag == "compiled-function" and not any(o is p_ for kk, (vv, _cc) in r["before"].items() for p_ in _reach(vv)):
                     newfn[k] = o
+        served = r.get("served")
+        lazy = False
+        if not newfn and isinstance(served, A.Opaque) and served.tag == "compiled-function" and not any(
+                served is p_ for kk, (vv, _cc) in r["before"].items() for p_ in _reach(vv)):
+            # the text is loaded by the first call rather than by recompile: what matters is the function that call runs
+            newfn = {"<the function the next call runs>": served}
+            lazy = True
+            res["facts"]["deferred_load"] = True
         if not newfn:
             wrapped = [k for k in _changed(r["before"], r["after"])]
             if any(e[0] == "ast-equal" for e in r["log"]):
@@ -369,7 +411,7 @@ def lifecycle(ctx: Ctx):
                 F["layout"].append((f"recompile[{k}]", f"recompile compiles the layout expose={expose!r}: the helper is defined at the top "
                                     "level of the exec'd text, i.e. in the exec locals, and is not visible from the generated function"))
         res["facts"]["parse_args_wrong"] = [repr(e[1]) for e in r["log"] if e[0] == "parse" and e[1] is not T1]
-        execs = [e for e in r["log"] if e[0] == "exec" and e[4]]
+        execs = [e for e in r["log"] + (r.get("settle_log", []) if lazy else []) if e[0] == "exec" and e[4]]
         res["facts"]["execs"] = len(execs)
         before_objs = {id(o_) for kk, (vv, _cc) in r["before"].items() for o_ in [vv]}
         for e in execs:
@@ -415,7 +457,7 @@ def lifecycle(ctx: Ctx):
         res["facts"]["call_reads"] = sorted(read)
 
         def final_state(history):
-            rs_ = [r_ for r_ in explore(ctx, history) if r_["kind"] == "return" and not any(
+            rs_ = [r_ for r_ in explore(ctx, history, settle=True) if r_["kind"] == "return" and not any(
                 a.endswith("=True") and ("raises at" in a or "returns None at" in a) for a in r_["assume"])]
             return rs_
         fresh = {id(t): final_state([t]) for t in (T0, T1)}
@@ -425,9 +467,21 @@ def lifecycle(ctx: Ctx):
             got = final_state(hist)
             if not want or not got:
                 continue
+            sa, sb = got[0].get("served"), want[0].get("served")
+            if not (_abs_eq(sa, sb) if isinstance(sa, A.Opaque) and isinstance(sb, A.Opaque) else sa == sb):
+                def _d(x):
+                    if isinstance(x, A.Opaque) and x.tag == "compiled-function":
+                        t_ = x.payload["text"].payload[0]
+                        return f"the function compiled from {A._describe(t_.payload) if isinstance(t_, A.Opaque) else t_!r}"
+                    return "no compiled function" if x is None else f"{x!r}"
+                F["switched"].append((f"recompile[{label}: served function]", f"after {label} a call runs {_d(sa)}, whereas on a fresh evaluator "
+                                      f"built from the same last text it runs {_d(sb)}: the evaluator's behaviour depends on the texts it "
+                                      "saw before"))
+                continue
+            # compare what a call reads once the evaluator has served one call (a text may be loaded by the first call)
             for attr in sorted(read):
-                a_ = got[0]["after"].get(attr, (None,))[0]
-                b_ = want[0]["after"].get(attr, (None,))[0]
+                a_ = got[0]["settled"].get(attr, (None,))[0]
+                b_ = want[0]["settled"].get(attr, (None,))[0]
                 if not _abs_eq(a_, b_):
                     F["switched"].append((f"recompile[{label}: self.{attr}]", f"after {label} the attribute self.{attr}, which a call reads, is not "
                                           f"what a fresh evaluator built from the same last text holds ({a_!r} vs {b_!r}): the evaluator's "
@@ -435,10 +489,52 @@ def lifecycle(ctx: Ctx):
                     break
     except Undecided:
         pass
+    # operations on a second evaluator must not show on the first one
+    try:
+        T2 = A.Sym("str", "TEXT2")
+        alone = [r_ for r_ in explore(ctx, [T0], settle=True) if r_["kind"] == "return" and ordinary(r_)]
+        for hist, label in (([T0, (1, T1)], "constructing a second evaluator from another text"),
+                            ([T0, (1, T1), (1, T2)], "recompiling a second evaluator")):
+            both = [r_ for r_ in explore(ctx, hist, settle=True) if r_["kind"] == "return" and ordinary(r_)]
+            if not alone or not both:
+                continue
+            sa, sb = both[0].get("served"), alone[0].get("served")
+            same = _abs_eq(sa, sb) if isinstance(sa, A.Opaque) and isinstance(sb, A.Opaque) else sa == sb
+            if not same:
+                def _d2(x):
+                    if isinstance(x, A.Opaque) and x.tag == "compiled-function":
+                        t_ = x.payload["text"].payload[0]
+                        return f"the function compiled from {A._describe(t_.payload) if isinstance(t_, A.Opaque) else t_!r}"
+                    return "no compiled function" if x is None else f"{x!r}"
+                F["isolated"].append((f"recompile[{label}]", f"after {label}, a call on the first evaluator (built from TEXT0) runs {_d2(sa)} "
+                                      f"instead of {_d2(sb)}: evaluators share the state recompile writes, so an operation on one changes "
+                                      "what another returns"))
+                break
+            ch = _changed(both[0]["before"], both[0]["after"])
+            if ch:
+                F["isolated"].append((f"recompile[{label}: self.{ch[0]}]", f"{label} changes the attribute {ch[0]} of the first evaluator"))
+                break
+        res["facts"]["two_evaluators"] = True
+    except Undecided:
+        pass
     for label, rs in (("after a successful recompile", again), ("after construction", first)):
         for r in rs:
             steps = [t for t in r["trace"] if t[0] == "step"]
             stores = [t for t in r["trace"] if t[0] == "store" and t[1] is r["self"]]
+
+            def _same_as_before(t, r=r):
+                # storing the value the attribute already has (instance attribute, or the class-level default it shadows)
+                if t[2] in r["before"]:
+                    old_ = r["before"][t[2]][0]
+                else:
+                    try:
+                        old_ = r["it"].class_attr(r["self"].cls, t[2], None, "")
+                    except Exception:  # noqa: BLE001
+                        return False
+                new_ = t[3]
+                return (old_ is None and new_ is None) or (isinstance(old_, (bool, int, str, A.Tmpl, A.ADigest)) and type(old_) is type(new_)
+                                                           and old_ == new_)
+            stores = [t for t in stores if not _same_as_before(t)]
             if r["kind"] != "return" or steps or stores:
                 what = f"calls {steps[0][1].split()[0]}" if steps else (f"stores self.{stores[0][2]}" if stores else f"raises {r.get('exc')}")
                 F["recorded"].append((f"recompile[same text {label}]", f"recompiling the text that was just accepted ({label}) is not a no-op: "
